@@ -965,8 +965,9 @@ func (h *Hashgraph) DecideFame() error {
 					return err
 				}
 
-				jPeerSet, err := h.Store.GetPeerSet(j)
-				if err != nil {
+				// The peer-set of round j is not used below: the quorum comes from
+				// the voters' set, round j-1. The lookup is kept for its error path.
+				if _, err := h.Store.GetPeerSet(j); err != nil {
 					return err
 				}
 
@@ -1019,9 +1020,18 @@ func (h *Hashgraph) DecideFame() error {
 							t = yays
 						}
 
+						// The votes counted above are those of the round j-1
+						// witnesses that y strongly sees with the round j-1
+						// PeerSet: the quorum that makes a decision safe is the
+						// super-majority of THAT set. (With the round j set, a
+						// set that shrinks from 5 to 4 at round j lets 3 equal
+						// votes out of 5 decide, and two nodes can decide the
+						// fame of one witness differently.)
+						quorum := jPrevPeerSet.SuperMajority()
+
 						// normal round
 						if math.Mod(float64(diff), COIN_ROUND_FREQ) > 0 {
-							if t >= jPeerSet.SuperMajority() {
+							if t >= quorum {
 								rRoundInfo.SetFame(x, v)
 								setVote(votes, y, x, v)
 								break VOTE_LOOP // break out of j loop
@@ -1029,7 +1039,7 @@ func (h *Hashgraph) DecideFame() error {
 								setVote(votes, y, x, v)
 							}
 						} else { // coin round
-							if t >= jPeerSet.SuperMajority() {
+							if t >= quorum {
 								setVote(votes, y, x, v)
 							} else {
 								setVote(votes, y, x, middleBit(y)) // middle bit of y's hash
